@@ -63,6 +63,7 @@ type PathStats struct {
 	Samples     []string
 	Inconcl     []string
 	Assumptions map[string]bool
+	Blocks      map[*ssa.Function]map[int]bool // basic blocks executed (code-coverage report)
 }
 
 type Path struct {
